@@ -8,6 +8,8 @@ func execExtraOp(ts []string) (string, bool) {
 		return execSplit(ts), true
 	case "extract":
 		return execExtract(ts), true
+	case "xf":
+		return execXf(ts), true
 	case "dor":
 		return execDor(ts), true
 	case "do":
